@@ -50,6 +50,9 @@
 (*   "FlushForgets"    a flush asked for while another one runs is dropped     *)
 (*   "DrainNoRecheck"  a Close waiting for "drain" goes on at the next drain   *)
 (*                     even if packets were buffered meanwhile                 *)
+(*   "TimeoutOnlyOpen" the heartbeat deadline acts on open sessions only (a        *)
+(*                     closing session with a silent peer stays for ever)      *)
+(*   "NoCheck"         the upgrade check never releases the pending poll       *)
 (*   "CloseMissesDrain" Close tests for pending packets and registers its      *)
 (*                     "drain" listener in two steps without looking again: a  *)
 (*                     drain emitted in between (or being emitted) is missed   *)
@@ -120,6 +123,7 @@ Init ==
            accepted |-> {},         \* messages accepted before a graceful Close (C12)
            hard |-> FALSE,          \* Close(true) was called
            unprobed |-> FALSE,      \* the transport was switched for a candidate that had not been probed
+           ncand |-> 0,             \* candidates opened (counted in the liveness runs only, where the environment must be finite)
            cclosed |-> FALSE,       \* the client has been sent a close packet: a conformant client does not poll any more
            aborted |-> FALSE]       \* the client gave up a poll (it is not "a client that keeps reading" any more)
   /\ hist = <<>>
@@ -221,7 +225,8 @@ SendPacket(x, p) == IF x.rs = "open" THEN Flush([x EXCEPT !.wbuf = Append(@, p)]
 ----------------------------------------------------------------------------
 \* with the feature "lastonly" the history is cut to the last action: the state graph (dumped by TLC without the VIEW) then
 \* carries on every state the action that produced it, which is what the transition-cover replay needs
-H(a) == hist' = IF "lastonly" \in Features THEN <<a>> ELSE Append(hist, a)
+\* (feature "nohist": no history at all - the liveness runs, which cannot use a VIEW)
+H(a) == hist' = IF "nohist" \in Features THEN <<>> ELSE IF "lastonly" \in Features THEN <<a>> ELSE Append(hist, a)
 
 (* application *)
 AppSend(m) ==
@@ -385,8 +390,9 @@ WsWrite ==
 (* upgrade *)
 CandOpen ==
     /\ "upgrade" \in Features /\ s.cand = "none" /\ s.reg /\ ~s.upgrading /\ ~s.upgraded
+    /\ ("nohist" \notin Features \/ ob.ncand < 2)
     /\ s' = [s EXCEPT !.cand = "attached", !.upgrading = TRUE, !.trs["w"] = "open", !.wr["w"] = TRUE]
-    /\ UNCHANGED ob
+    /\ ob' = IF "nohist" \in Features THEN [ob EXCEPT !.ncand = @ + 1] ELSE ob
     /\ H([a |-> "cand.open"])
 CandProbe ==
     /\ s.cand = "attached"
@@ -395,6 +401,7 @@ CandProbe ==
     /\ H([a |-> "cand.probe"])
 \* the 100 ms check: release a pending poll with a noop; since fix ... it steps aside while a flush is in progress
 CheckTick ==
+    /\ ~Dev("NoCheck")
     /\ s.cand = "probed" /\ s.cur = "p" /\ s.wr["p"] /\ s.att["p"]
     /\ (~Locked(s) \/ Dev("CheckNoLock"))
     /\ s' = TrSend(s, "p", <<P("noop")>>)
@@ -426,10 +433,13 @@ CandFail ==
 
 ----------------------------------------------------------------------------
 (* heartbeat (revision 4), time abstracted: the ping timer fires, the client answers or the deadline passes *)
+\* (the ping timer of a session that is closing fires as well: sendPacket drops the ping, the deadline is armed all the same -
+\*  that deadline is what bounds a graceful close whose data the client never fetches, C12)
 PingFire ==
-    /\ "heartbeat" \in Features /\ s.rs = "open" /\ ~s.pingOut /\ s.enter = {} /\ ob.npings < MaxPings
+    /\ "heartbeat" \in Features /\ s.rs \in {"open", "closing"} /\ ~s.pingOut /\ s.enter = {}
+    /\ (s.rs = "closing" \/ ob.npings < MaxPings)
     /\ s' = [SendPacket(s, P("ping")) EXCEPT !.pingOut = TRUE, !.armed = TRUE]
-    /\ ob' = [ob EXCEPT !.npings = @ + 1]
+    /\ ob' = IF s.rs = "open" THEN [ob EXCEPT !.npings = @ + 1] ELSE ob
     /\ H([a |-> "ping"])
 Pong ==
     /\ s.pingOut /\ s.rs = "open" /\ s.att[s.cur]
@@ -437,7 +447,7 @@ Pong ==
     /\ UNCHANGED ob
     /\ H([a |-> "pong"])
 PingTimeout ==
-    /\ s.pingOut /\ s.armed /\ s.rs # "closed"
+    /\ s.pingOut /\ s.armed /\ s.rs # "closed" /\ (s.rs = "open" \/ ~Dev("TimeoutOnlyOpen"))
     /\ s' = CloseEnter(s, "ping timeout")
     /\ UNCHANGED ob
     /\ H([a |-> "pingtimeout"])
@@ -510,6 +520,34 @@ C03_SilentAfterClose == [][(ob.nclose = 1 /\ ~s.upgraded) => ~s'.upgraded]_vars
 \* C07: while a ping is outstanding on an open session its deadline is armed (an upgrade completing between a ping and
 \* its deadline cancels the deadline: upstream design, excluded by the property's quantifier)
 C07_DeadlineArmed == (s.pingOut /\ s.rs = "open" /\ ~InClose /\ ~s.upgraded) => s.armed
+
+----------------------------------------------------------------------------
+(* ---- liveness: the "eventually" halves of the properties, checked under fairness of everything the SERVER does by     *)
+(* itself (goroutines that have been started run to their next yield point, timers that stay due fire) and of a client  *)
+(* that keeps reading; configurations for these use the feature "nohist" and no VIEW                                   *)
+Internal == \/ FlushGo \/ FlushEnd \/ (\E i \in 1..2 : PollWrite(i)) \/ WsWrite \/ AppCloseWait
+            \/ (CloseWin /\ \E r \in s.enter : CloseMid(r)) \/ (CloseWin /\ \E r \in s.mid : CloseFinish(r))
+            \/ (~CloseWin /\ \E r \in s.enter : CloseRest(r))
+\* (one fairness condition per goroutine: none of them is starved by the others)
+FairSpec == /\ Spec
+            /\ WF_vars(FlushGo) /\ WF_vars(FlushEnd) /\ WF_vars(\E i \in 1..2 : PollWrite(i)) /\ WF_vars(WsWrite) /\ WF_vars(AppCloseWait)
+            /\ WF_vars(CloseWin /\ \E r \in s.enter : CloseMid(r)) /\ WF_vars(CloseWin /\ \E r \in s.mid : CloseFinish(r))
+            /\ WF_vars(~CloseWin /\ \E r \in s.enter : CloseRest(r))
+            /\ WF_vars(CloseTimeoutFire) /\ WF_vars(PingFire) /\ WF_vars(PingTimeout) /\ WF_vars(CheckTick)
+            /\ WF_vars(CliPoll) /\ SF_vars(CandUpgrade)
+\* C12: a session that is closing gracefully closes (close packet fetched, close timeout, or the next heartbeat deadline)
+L_C12_ClosingCloses == (s.rs = "closing") ~> (s.rs = "closed")
+\* C01: while the session stays open and the client keeps reading (it has polls left, did not give one up, was not told to stop),
+\* everything Send accepted is eventually received
+ClientReads == ob.npolls < MaxPolls /\ ~ob.aborted /\ ~ob.cclosed /\ s.poll # "gone"
+L_C01_Delivered == (s.rs = "open" /\ ob.rcvd # ob.sent) ~> (ob.rcvd = ob.sent \/ s.rs # "open" \/ InClose \/ ~ClientReads)
+\* C11 / C12: a poll that is pending when the session has closed is answered
+L_C11_PollAnswered == (s.poll = "pending" /\ s.rs = "closed") ~> (s.poll # "pending")
+\* C08: a candidate that follows the protocol (probe answered, upgrade sent as soon as no poll is outstanding) on a session
+\* that stays open completes the switch, unless it fails
+L_C08_UpgradeCompletes == (s.cand = "probed" /\ s.rs = "open") ~> (s.upgraded \/ s.rs # "open" \/ InClose \/ s.cand \in {"none", "dead"})
+\* no livelock: the server's own steps come to an end (a flush asking itself for another flush for ever, ..)
+L_NoLivelock == <>[](~ENABLED <<Internal>>_vars)
 
 Emit == (ob.npolls = MaxPolls \/ (s.rs = "closed" /\ Quiet)) => PrintT("BEHAVIOUR " \o ToJson(hist))
 =============================================================================
